@@ -8,6 +8,8 @@
    [eval] (expr-lang Compile + Run), the decoding of a parsed value into the field's Go type
    [decode] (mapstructure; C17's subject) and the validator's verdict [verdict] on the field value
    under the stated constraints.  All statements hold for EVERY such function, every configuration,
+   both variants fx of the ${} callback (Model/Strconv.v format_cfg: true = repair D-C17g, a float64 is
+   spliced in plain digits; which one the tree has is read off the running code on every run),
    every list of processor facts (built-in and user processors of every class and Order).
 
    The side condition [staged facts = true] is an instantiated obligation: the class and Order()
@@ -30,23 +32,23 @@ Proof. exact staged_classes_order. Qed.
 
 (* With the computed sequence staged, the pipeline on a property IS the composition
    ${} ; #{} ; binding ; validation - whatever other processors are registered. *)
-Theorem c18_pipeline_staged : forall cfg budget eval decode verdict facts st,
+Theorem c18_pipeline_staged : forall fx cfg budget eval decode verdict facts st,
   staged facts = true ->
-  run_pipeline cfg budget eval decode verdict facts st = spec_run cfg budget eval decode verdict st.
+  run_pipeline fx cfg budget eval decode verdict facts st = spec_run fx cfg budget eval decode verdict st.
 Proof. exact staged_pipeline. Qed.
 
 (* A #{...} expression whose text contains ${} placeholders (given as an AST l, nesting and
    defaults allowed): the evaluator is handed exactly u, the text with ALL placeholders
    substituted (the result depends on eval only through eval u), its result is spliced in through
    FormatAny, then binding and validation run on the resulting text. *)
-Theorem c18_expr_after_subst : forall cfg eval decode verdict facts b st pre post l u,
+Theorem c18_expr_after_subst : forall fx cfg eval decode verdict facts b st pre post l u,
   staged facts = true ->
   ps_kind st = TValue -> ps_tagval st = ps_tagstr st -> ps_tagstr st = expr_tag pre post l ->
-  no_rbrace pre = true -> forallb wf l = true -> forallb (clean (resolve cfg)) l = true ->
+  no_rbrace pre = true -> forallb wf l = true -> forallb (clean (resolve fx cfg)) l = true ->
   (ph_count_all l <= S b)%nat ->
-  subst_all (resolve cfg) l = Ok u ->
+  subst_all (resolve fx cfg) l = Ok u ->
   find_first b_dollar (expr_tag_subst pre post u) = None ->
-  run_pipeline cfg (Some (S b)) eval decode verdict facts st =
+  run_pipeline fx cfg (Some (S b)) eval decode verdict facts st =
   match eval u with
   | Ok v =>
     match format_any v with
@@ -63,14 +65,14 @@ Theorem c18_expr_after_subst : forall cfg eval decode verdict facts b st pre pos
 Proof. exact expr_after_subst. Qed.
 
 (* the whole tag is one expression: the field receives decode (parse_any (format_any (eval u))) *)
-Theorem c18_expr_result_bound : forall cfg eval decode verdict facts b st l u v fv pv f,
+Theorem c18_expr_result_bound : forall fx cfg eval decode verdict facts b st l u v fv pv f,
   staged facts = true ->
   ps_kind st = TValue -> ps_tagval st = ps_tagstr st -> ps_tagstr st = expr_tag [] [] l ->
-  forallb wf l = true -> forallb (clean (resolve cfg)) l = true -> (ph_count_all l <= S b)%nat ->
-  subst_all (resolve cfg) l = Ok u -> find_first b_dollar (expr_tag_subst [] [] u) = None ->
+  forallb wf l = true -> forallb (clean (resolve fx cfg)) l = true -> (ph_count_all l <= S b)%nat ->
+  subst_all (resolve fx cfg) l = Ok u -> find_first b_dollar (expr_tag_subst [] [] u) = None ->
   eval u = Ok v -> format_any v = Ok fv -> find_first b_hash fv = None -> fv <> [] ->
   parse_any fv = Ok pv -> decode pv = Ok f ->
-  run_pipeline cfg (Some (S b)) eval decode verdict facts st =
+  run_pipeline fx cfg (Some (S b)) eval decode verdict facts st =
   stage_validate verdict (with_field (with_tagval st fv) f).
 Proof. exact expr_result_bound. Qed.
 
@@ -78,18 +80,18 @@ Proof. exact expr_result_bound. Qed.
    this property fails in the validate stage exactly when the property is a configuration
    property with a validate argument and the validator's verdict on the BOUND value is negative;
    in every other case the pipeline succeeds with s3. *)
-Theorem c18_validate_iff : forall cfg budget eval decode verdict facts st s1 s2 s3,
+Theorem c18_validate_iff : forall fx cfg budget eval decode verdict facts st s1 s2 s3,
   staged facts = true ->
-  stage_quote cfg budget st = POk s1 -> stage_expr budget eval s1 = POk s2 ->
+  stage_quote fx cfg budget st = POk s1 -> stage_expr budget eval s1 = POk s2 ->
   (match ps_kind s2 with TPrefix => stage_bindprefix cfg decode s2 | _ => stage_bindvalue decode s2 end) = POk s3 ->
-  (run_pipeline cfg budget eval decode verdict facts st = PErr EValidate <->
+  (run_pipeline fx cfg budget eval decode verdict facts st = PErr EValidate <->
      ps_kind s3 <> TOther /\ ps_validate s3 = true /\ verdict (ps_field s3) = false)
-  /\ (run_pipeline cfg budget eval decode verdict facts st <> PErr EValidate ->
-      run_pipeline cfg budget eval decode verdict facts st = POk s3).
+  /\ (run_pipeline fx cfg budget eval decode verdict facts st <> PErr EValidate ->
+      run_pipeline fx cfg budget eval decode verdict facts st = POk s3).
 Proof.
-  intros cfg budget eval decode verdict facts st s1 s2 s3 Hst H1 H2 H3.
-  rewrite (staged_pipeline cfg budget eval decode verdict facts st Hst).
-  exact (validate_iff cfg budget eval decode verdict st s1 s2 s3 H1 H2 H3).
+  intros fx cfg budget eval decode verdict facts st s1 s2 s3 Hst H1 H2 H3.
+  rewrite (staged_pipeline fx cfg budget eval decode verdict facts st Hst).
+  exact (validate_iff fx cfg budget eval decode verdict st s1 s2 s3 H1 H2 H3).
 Qed.
 
 (* ---- non-vacuity ----------------------------------------------------------------------- *)
@@ -115,10 +117,10 @@ Definition ex18_ast : list tpart := [Ph [Lit [97]%N]; Lit [43]%N; Ph [Lit [98;58
 Definition ex18_state : pstate :=
   mkPState TValue (expr_tag [] [] ex18_ast) (expr_tag [] [] ex18_ast) true true None.
 
-Example c18_expr_example :
-  subst_all (resolve ex18_cfg) ex18_ast = Ok [50;43;49]%N
-  /\ run_pipeline ex18_cfg (Some repo_budget) ex18_eval (fun v => Ok v) (fun f => true) ex_facts ex18_state
+Example c18_expr_example : forall fx,
+  subst_all (resolve fx ex18_cfg) ex18_ast = Ok [50;43;49]%N
+  /\ run_pipeline fx ex18_cfg (Some repo_budget) ex18_eval (fun v => Ok v) (fun f => true) ex_facts ex18_state
      = POk (mkPState TValue (expr_tag [] [] ex18_ast) [51]%N true true (Some (VDec 3 0)))
-  /\ run_pipeline ex18_cfg (Some repo_budget) ex18_eval (fun v => Ok v) (fun f => false) ex_facts ex18_state
+  /\ run_pipeline fx ex18_cfg (Some repo_budget) ex18_eval (fun v => Ok v) (fun f => false) ex_facts ex18_state
      = PErr EValidate.
-Proof. vm_compute. repeat split; reflexivity. Qed.
+Proof. intros fx. destruct fx; vm_compute; repeat split; reflexivity. Qed.
